@@ -467,8 +467,17 @@ class EbuildProcessor:
         :return: True for success, False for everything else
         """
 
+        # replies to earlier asynchronous requests (eclass preloads) are not this
+        # phase's business; collect them first so the expects below are about this
+        # request only
+        if self._outstanding_expects:
+            self._consume_async_expects()
         self.write(f"process_ebuild {phase}")
         if not self.send_env(env, tmpdir=tmpdir):
+            # the daemon abandons the phase after a failed env transfer and its main
+            # loop reports "phases failed ..."; consume that line, otherwise the next
+            # request reads it as its own reply and every later reply is off by one
+            self.read()
             return False
         self.write(f"set_sandbox_state {int(sandbox)}")
         if logging and not self.set_logfile(logging):
